@@ -49,54 +49,82 @@ def named_keys(op):
     return []
 
 
+def _arg_own_name(spec):
+    """the name an Element argument carries when it differs from its field's: subclass rename or name= keyword"""
+    if not isinstance(spec, dict):
+        return None
+    return spec.get("inst_name") if spec.get("inst_name") is not None else spec.get("rename")
+
+
 def check(ex, info):
     from flatland.schema.base import Element
     fails = []
     root = ex.root
     schema = ex.case["schema"]
-    kind = schema["k"]
-    declared = [f["name"] for f in schema["subs"]]
-    required = [f["name"] for f in schema["subs"] if not f["opt"]]
+    kind = G.kind_of_element(root)
     field_cls = {f.name: f for f in root.field_schema}
+    declared = list(field_cls)
+    required = [f.name for f in root.field_schema if not f.optional]
+    minreq = kind == "sparse" and getattr(root, "minimum_fields", None) == "required"
+    dense = kind in ("dict", "date")
     op = info.get("op")
-    renamed = False
-    if op is not None and op["op"] == "setitem" and info["args"] and info["args"][0][0] == "elem":
-        renamed = (op.get("a") or {}).get("rename") is not None
-    # an Element of the declared field class handed to a SparseDict is adopted: it must be the stored member
+    memo = ex.memo
+    known_bad = memo.setdefault("bad", set())          # offenders already reported (a violation persists)
+    skipped = isinstance(info.get("out"), dict) and "skip" in info["out"]
+
+    # the arguments of this call, per key (last one wins), with their case specs
+    keyed = {}
+    all_args = []
+    if op is not None and not skipped and op["op"] in ("setitem", "update_items"):
+        specs = [(op["k"], op["a"])] if op["op"] == "setitem" else [(k, a) for k, a in op["items"]]
+        all_args = list(zip(specs, info["args"]))
+        for (k, spec), arg in all_args:
+            keyed[k] = (spec, arg)
     adopted = []
-    if op is not None and kind == "sparse" and info.get("raised") is None and op["op"] in ("setitem", "update_items"):
-        keys_args = [(op["k"], info["args"][0])] if op["op"] == "setitem" else \
-            list(zip([k for k, _ in op["items"]], info["args"]))
-        last = {}
-        for k, (tag, v) in keys_args:
-            last[k] = (tag, v)
-        for k, (tag, v) in last.items():
+    if kind == "sparse" and op is not None and info.get("raised") is None:
+        for k, (spec, (tag, v)) in keyed.items():
             if tag == "elem" and k in field_cls and type(v) is field_cls[k]:
                 adopted.append((k, v))
 
-    def fail(clause, expected, observed):
-        fails.append({"clause": clause, "expected": expected, "observed": observed, "step": info["i"], "op": op,
-                      "renamed_arg": renamed, "kind": kind})
+    def fail(clause, expected, observed, **extra):
+        d = {"clause": clause, "expected": expected, "observed": observed, "step": info["i"], "op": op, "kind": kind}
+        d.update(extra)
+        fails.append(d)
 
     keys = list(dict.keys(root))
-    extra = [k for k in keys if k not in declared]
-    if extra:
+    extra_keys = [k for k in keys if k not in declared]
+    if extra_keys:
         fail("keys-declared", declared, [k if isinstance(k, str) else repr(k) for k in keys])
-    if kind == "dict":
+    if dense:
         if sorted(k for k in keys if isinstance(k, str)) != sorted(declared) or len(keys) != len(declared):
             fail("dict-has-every-field", sorted(declared), sorted(str(k) for k in keys))
-    elif schema["minreq"]:
+    elif minreq:
         missing = [k for k in required if k not in keys]
-        if missing:
-            fail("required-fields-present", required, keys)
+        newly = [k for k in missing if ("missing", k) not in known_bad]
+        for k in list(known_bad):
+            if k[0] == "missing" and k[1] not in missing:
+                known_bad.discard(k)
+        for k in newly:
+            known_bad.add(("missing", k))
+            before = (info.get("before_items") or {}).get(k) if info.get("target") is root else None
+            fail("required-fields-present", required, keys, key=k,
+                 removed_by=(op or {}).get("op"), removed_key=(op or {}).get("k"),
+                 member_optional=bool(getattr(before, "optional", False)) if before is not None else None,
+                 field_optional=bool(field_cls[k].optional))
     for k, v in dict.items(root):
         if not isinstance(v, Element):
             fail("values-are-elements", "Element", type(v).__name__)
             continue
         if k in field_cls and not isinstance(v, field_cls[k]):
             fail("value-of-declared-type", field_cls[k].__name__, type(v).__name__)
-        if v.name != k:
-            fail("value-named-after-key", k, v.name)
+        if v.name != k and ("name", k, id(v)) not in known_bad:
+            known_bad.add(("name", k, id(v)))
+            spec = None
+            for (k2, sp), (tag, av) in all_args:
+                if k2 == k and av is v:
+                    spec = sp            # the argument of this call that IS the stored member
+            fail("value-named-after-key", k, v.name,
+                 placed_now=spec is not None, arg_own_name=_arg_own_name(spec))
         if v.parent is not root:
             fail("value-parent-is-mapping", "the mapping", "None" if v.parent is None else type(v.parent).__name__)
     for k, v in adopted:
@@ -106,17 +134,14 @@ def check(ex, info):
             fail("adopted-element-parent-is-mapping", "the mapping", "None" if v.parent is None else
                  ("its previous container" if v.parent is ex.foreign_owner.get(id(v)) else type(v.parent).__name__))
     # operations naming an undeclared key are rejected and never add it
-    if op is not None and not (isinstance(info["out"], dict) and "skip" in info["out"]):
+    if op is not None and not skipped and info.get("target") is root:
         und = [k for k in named_keys(op) if k not in declared]
         if und:
             n = op["op"]
             must_raise = n in ("setitem", "delitem", "pop", "setdefault", "get", "update", "ior", "update_items")
             if n == "set":
-                pol = op["policy"] if "policy" in op and op["policy"] is not None else schema["policy"]
-                must_raise = pol in ("strict", "subset")
-            if n in ("update", "ior"):
-                # a non-dict-like positional argument raises before any key is looked at: still a raise
-                pass
+                pol = op["policy"] if "policy" in op and op["policy"] is not None else getattr(root, "policy", None)
+                must_raise = pol in ("strict", "subset") and kind != "date"
             if must_raise and info["raised"] is None:
                 fail("undeclared-key-rejected", "TypeError/KeyError", "returned normally")
             if info["raised"] is not None and n in ("setitem", "delitem", "pop", "setdefault", "get") and \
@@ -125,18 +150,21 @@ def check(ex, info):
     return fails
 
 
-def renamed_subclass_arg(case, failure):
-    """class predicate of KF-C10-a"""
-    return failure.get("clause") == "value-named-after-key" and failure.get("kind") == "sparse" and \
-        _history_has_renamed(case)
+def foreign_name_arg(case, failure):
+    """class predicate of KF-C10-a: the member that fails `named after its key` is the Element argument placed by
+    THIS call under THAT key, and the name observed is the argument's own name (renamed subclass or name= keyword)"""
+    return (failure.get("clause") == "value-named-after-key" and failure.get("kind") == "sparse"
+            and failure.get("placed_now") is True and failure.get("arg_own_name") is not None
+            and failure.get("observed") == failure.get("arg_own_name")
+            and failure.get("expected") != failure.get("observed"))
 
 
-def _history_has_renamed(case):
-    for o in case["ops"]:
-        m = o.get("m") or {}
-        if m.get("op") == "setitem" and (m.get("a") or {}).get("rename") is not None:
-            return True
-    return False
+def required_removed_through_optional_member(case, failure):
+    """class predicate of KF-C10-b: the required key went missing in a `del`/`pop` of exactly that key, and the
+    member stored under it said optional=True although its field schema says optional=False"""
+    return (failure.get("clause") == "required-fields-present" and failure.get("kind") == "sparse"
+            and failure.get("removed_by") in ("delitem", "pop") and failure.get("removed_key") == failure.get("key")
+            and failure.get("member_optional") is True and failure.get("field_optional") is False)
 
 
 # ---------------------------------------------------------------- the property
@@ -166,31 +194,42 @@ class C10(Property):
         "Flatland.C10.Proofs.named_after_key",
         "Flatland.C10.Proofs.undeclared_rejected",
         "Flatland.C10.Proofs.C10_full_fails",
+        "Flatland.C10.Proofs.C10_runClassOnly_fails",
     ]
     level_text = "proof (partial)"
-    level_note = ("mapinv_init/mapinv_step/mapinv_run: the mapping invariant (declared keys only, Dict = exactly its "
-                  "fields in order, required fields of a sparse-required mapping, children of the declared class under "
-                  "the field's name with the mapping as stored parent) holds initially and is preserved by every "
-                  "dict-protocol call, accepted or rejected, under the hypothesis that an Element argument passing "
-                  "isinstance is of the field class itself; without it the statement is refuted (C10_full_fails, "
-                  "KF-C10-a). set_flat and Compound are covered by the Python oracle only")
+    level_note = ("THEOREM (partial): mapinv_init/mapinv_step/mapinv_run — the mapping invariant holds initially and is "
+                  "preserved by every dict-protocol call of the model, accepted or rejected, under ArgExact: an Element "
+                  "argument that passes isinstance is of the field class itself AND carries no instance-level optional=/"
+                  "name= override. Without it the statement is refuted: C10_full_fails (renamed subclass, KF-C10-a) and "
+                  "C10_runClassOnly_fails (exact class with optional=True deletes a required key, KF-C10-b). "
+                  "undeclared_rejected is a theorem for setitem/del/pop/setdefault/get only. On model paths answering "
+                  "`unsupported` (Element handed to a dense Dict whose child is a container, non-empty list handed to "
+                  "Dict.set ...) the step theorem is vacuous: the node is unchanged. ORACLE ONLY: rejection of undeclared "
+                  "keys by update/|=/set(strict|subset); Compound (DateYYYYMMDD) roots; set_flat/from_flat; the "
+                  "`unsupported` paths. Declarative Schema roots are modelled as Dict and compared")
     technique = "invariant proof over operation histories (Lean 4) + differential testing against the implementation"
     trusted_base = [
         "dict insertion order and key replacement semantics of CPython dict (modelled as an ordered list of children)",
         "`isinstance(value, field_schema)` modelled as class identity or derivation (cid / isa)",
     ]
     assumptions = [
-        "Compound (DateYYYYMMDD) is exercised by the Python oracle only where it behaves as a Mapping; its compose/"
-        "explode logic belongs to C18",
+        "Compound (DateYYYYMMDD) roots and the flat routes are generated and checked by the Python oracle only; "
+        "Compound's compose/explode logic belongs to C18",
+        "the model follows containers.py as it is: SparseDict.__delitem__/pop read the MEMBER's optional (instance "
+        "attribute), `.name` is the instance's",
         "field names are non-empty and distinct (Dict.of enforces distinctness)",
         "Element arguments are fresh or detached (no aliasing)",
     ]
-    rule = ("histories of 1-14 dict-protocol calls (item assignment with plain values / fresh Elements / detached "
-            "Elements / Elements of a renamed subclass, del, pop, popitem, clear, update positional dict|pairs|junk and "
-            "keyword, |=, setdefault, get, set under explicit policy strict/subset/duck/None or the class policy, "
-            "set_default) over declared and undeclared keys, on a Dict or SparseDict (minimum_fields None/'required') "
-            "with 1-3 fields (Integer/String/List/Dict, optional or not, with defaults); non-trivial = at least 3 calls "
-            "changed the mapping or raised")
+    rule = ("histories of 1-14 dict-protocol calls (item assignment with plain values / fresh Elements / Elements detached "
+            "earlier / Elements owned by another container / Elements of a renamed or optional-overriding subclass / "
+            "Elements of the field class built with optional= or name= keywords; del, pop, popitem, clear, update "
+            "positional dict|pairs|junk and keyword, update/|= with Element values, setdefault, get, set under explicit "
+            "policy strict/subset/duck/None or the class policy, set_default, set_flat) over declared and undeclared keys, "
+            "on a Dict, declarative Schema, SparseDict (minimum_fields None/'required') with 1-3 fields "
+            "(Integer/String/List/Dict, optional or not, with defaults) or a DateYYYYMMDD compound; routes constructor/"
+            "set/set_default/from_defaults/from_flat/set_flat. Cases the Lean model does not cover (flat routes, "
+            "Compound, model paths answering unsupported) are marked oracle-only BEFORE the run and are not counted as "
+            "validated traces (tag model=oracle-only). non-trivial = at least 3 calls changed the mapping or raised")
     quick_n = 40000
     thorough_n = 300000
 
@@ -228,12 +267,52 @@ class C10(Property):
                                                                                   ["y", {"new": 8, "foreign": True}]]}),
                                 _op({"op": "pop", "k": "x"}),
                                 _op({"op": "update_items", "form": form, "items": [["x", {"pool": 0}], ["y", {"pool": 0}]]})]})
+        # open KF-C10-b: a REQUIRED field is deleted / popped through a member whose own `optional` is True:
+        # an instance of the field class itself built with optional=True, and an instance of a using(optional=True) subclass
+        SR = _map("sparse", [a], minreq=True)
+        out.append({"schema": SR, "init": {"route": "ctor", "value": None},
+                    "ops": [_op({"op": "setitem", "k": "a", "a": {"new": "v", "inst_optional": True}}),
+                            _op({"op": "delitem", "k": "a"})]})
+        out.append({"schema": SR, "init": {"route": "ctor", "value": None},
+                    "ops": [_op({"op": "setitem", "k": "a", "a": {"new": "v", "sub_optional": True, "cid": 100002}}),
+                            _op({"op": "pop", "k": "a"})]})
+        # KF-C10-a without a subclass: name= keyword on an instance of the field class itself
+        out.append({"schema": SR, "init": {"route": "ctor", "value": None},
+                    "ops": [_op({"op": "setitem", "k": "a", "a": {"new": "v", "inst_name": "zz"}}), _op({"op": "len"})]})
+        # Compound, declarative Schema, flat routes (Compound and flat routes: oracle only)
+        D = {"cid": 1, "k": "date", "name": "when", "opt": False, "policy": "subset", "minreq": False, "isa": [],
+             "default": None, "subs": [_scalar(2, "integer", "year"), _scalar(3, "integer", "month"),
+                                       _scalar(4, "integer", "day")]}
+        out.append({"schema": D, "init": {"route": "ctor", "value": None}, "nomodel": True,
+                    "ops": [_op({"op": "setitem", "k": "year", "a": {"v": 2020}}), _op({"op": "setitem", "k": "zz", "a": {"v": 1}}),
+                            _op({"op": "ior", "v": {"d": [["month", 3], ["q", 1]]}}), _op({"op": "pop", "k": "day"}),
+                            _op({"op": "clear"}), _op({"op": "set_flat", "pairs": [["when_year", "1999"], ["when_zz", "1"]]}),
+                            _op({"op": "setdefault", "k": "year", "d": 1})]})
+        F = _map("schema", [_scalar(2, "string", "a"), _scalar(3, "integer", "b", opt=True)])
+        out.append({"schema": F, "init": {"route": "from_flat", "pairs": [["a", "x"], ["b", "7"], ["zz", "1"]]}, "nomodel": True,
+                    "ops": [_op({"op": "update", "kw": [["b", 1]]}), _op({"op": "delitem", "k": "a"}),
+                            _op({"op": "set_flat", "pairs": [["a", "y"], ["q", "1"]]})]})
         return out
 
     def generate(self, rng, n, tier):
+        yield from G.mark_unmodelled(self, list(self._generate(rng, n, tier)))
+
+    def _generate(self, rng, n, tier):
         for _ in range(n):
             cid = G.Counter()
-            kind = rng.choice(["dict", "sparse", "sparse"])
+            kind = rng.choice(["dict", "sparse", "sparse", "sparse", "schema", "date"] if rng.random() < 0.5
+                              else ["dict", "sparse", "sparse"])
+            if kind == "date":
+                root_cid = cid()
+                schema = {"cid": root_cid, "k": "date", "name": rng.choice([None, "d"]), "opt": False, "policy": "subset",
+                          "minreq": False, "isa": [], "default": None,
+                          "subs": [_scalar(cid(), "integer", nm) for nm in ("year", "month", "day")]}
+                init = {"route": rng.choice(["ctor", "ctor", "set_flat"]), "value": None}
+                if init["route"] == "set_flat":
+                    init["pairs"] = G.gen_flat_pairs(rng, schema)
+                ops = [_op(G.gen_map_op(rng, schema, valid=rng.random() < 0.8, flat=True)) for _ in range(rng.choice([1, 2, 4, 8]))]
+                yield {"schema": schema, "init": init, "ops": ops, "nomodel": True}
+                continue
             root_cid = cid()
             names = rng.sample(G.NAMES, rng.randint(1, 3))
             fields = []
@@ -250,11 +329,19 @@ class C10(Property):
             hostile = rng.random() < 0.2
             if rng.random() < 0.15:
                 schema["default"] = G.gen_value(rng, schema, valid=True)
-            route = rng.choice(["ctor", "ctor", "ctor_value", "ctor_value", "set", "from_defaults", "set_default"])
+            route = rng.choice(["ctor", "ctor", "ctor_value", "ctor_value", "set", "from_defaults", "set_default",
+                                "from_flat", "set_flat"] if rng.random() < 0.3 else
+                               ["ctor", "ctor", "ctor_value", "ctor_value", "set", "from_defaults", "set_default"])
             init = {"route": route, "value": G.gen_value(rng, schema, valid=not hostile)}
+            if route in ("from_flat", "set_flat"):
+                init["pairs"] = G.gen_flat_pairs(rng, schema)
             nops = rng.choice([1, 2, 3, 4, 6, 8, 10, 14])
-            ops = [_op(G.gen_map_op(rng, schema, valid=not hostile)) for _ in range(nops)]
-            yield {"schema": schema, "init": init, "ops": ops}
+            flat = route in ("from_flat", "set_flat") or rng.random() < 0.05
+            ops = [_op(G.gen_map_op(rng, schema, valid=not hostile, flat=flat)) for _ in range(nops)]
+            case = {"schema": schema, "init": init, "ops": ops}
+            if G.has_flat(case):
+                case["nomodel"] = True       # the flat-key parser is not in this model (C01/C02): oracle only
+            yield case
 
     def _run(self, case):
         key = canon(case)
@@ -277,9 +364,14 @@ class C10(Property):
         return super().compare(impl_obs, model_obs)
 
     def classify(self, case, failure):
-        if renamed_subclass_arg(case, failure):
+        if foreign_name_arg(case, failure):
             return "KF-C10-a"
+        if required_removed_through_optional_member(case, failure):
+            return "KF-C10-b"
         return None
+
+    def has_model(self, case):
+        return not case.get("nomodel")
 
     def nontrivial(self, case, obs):
         if any("view_raises" in st["view"] for st in obs["steps"]):
@@ -295,7 +387,8 @@ class C10(Property):
         if any("view_raises" in st["view"] for st in obs["steps"]):
             return ["view-raises"]
         s = case["schema"]
-        t = ["kind=" + s["k"] + ("+required" if s["minreq"] else ""), "policy=" + s["policy"],
+        t = ["model=" + ("oracle-only" if case.get("nomodel") else "compared"),
+             "kind=" + s["k"] + ("+required" if s["minreq"] else ""), "policy=" + s["policy"],
              "route=" + case["init"]["route"], "ops=%d" % len(case["ops"])]
         declared = [f["name"] for f in s["subs"]]
         for o, st, prev in zip(case["ops"], obs["steps"][1:], obs["steps"]):
@@ -311,6 +404,9 @@ class C10(Property):
                 t.append("op:%s:ok%s" % (name, suffix))
             a = o["m"].get("a") or {}
             for a in [a] + [x for _, x in o["m"].get("items", [])]:
+                for v in ("inst_optional", "inst_name", "sub_optional"):
+                    if v in a:
+                        t.append("arg:" + v)
                 if "rename" in a:
                     t.append("arg:renamed-subclass")
                 elif "new" in a or "pool" in a:
